@@ -96,6 +96,12 @@ GEO_FULL = [
     ["Rotate", [0.0, 0.0, 1.0], math.pi / 2, "origin"],
     ["Normalizer"],
     ["RadiusReseter", 0.5],
+    # neutral arguments ("all admissible arguments"): the result is still a NEW well-formed tree sharing nothing with the input
+    ["Translate", 0.0, 0.0, 0.0],
+    ["Scale", 1.0, 1.0, 1.0, "root"],
+    ["Scale", 1.0, 1.0, 1.0, "origin"],
+    ["RotateX", 0.0, "root"],
+    ["Rotate", [0.0, 0.0, 1.0], 0.0, "origin"],
 ]
 GEO_CORE = [["Translate", 1.0, -2.0, 0.5], ["RotateZ", -1.1, "root"], ["Scale", 2.0, 2.0, 2.0, "root"]]
 PAIR_MENU = [
@@ -105,6 +111,9 @@ PAIR_MENU = [
     ["Translate", 1.0, -2.0, 0.5],
     ["RotateZ", -1.1, "root"],
     ["TreeSmoother", 3],
+    ["Translate", 0.0, 0.0, 0.0],
+    ["Scale", 1.0, 1.0, 1.0, "root"],
+    ["RotateY", 0.0, "origin"],
 ]
 
 
@@ -192,6 +201,9 @@ def events(t, menu, depth=0):
         for a in PAIR_MENU:
             for b in PAIR_MENU:
                 ev.append(["Transforms", a, b])
+        for a in PAIR_MENU:
+            ev.append(["Transforms", a])  # a one-step pipeline
+            ev.append(["Transforms", ["Transforms", a], ["Transforms", a, a]])  # pipelines of pipelines
     return ev
 
 
@@ -299,13 +311,24 @@ def bind(ev, t, B, pool=None):
             return (lambda: Tree.from_swc(io.StringIO(t.to_swc()))), [t], None
         return (lambda: Tree.from_swc(io.BytesIO(t.to_swc().encode("utf-8")))), [t], None
     if nm == "Transforms":
-        from swcgeom.transforms import Transforms
-
-        a, b = _pooled(ev[1], pool), _pooled(ev[2], pool)
-        op = Transforms(a, b)
+        op = _make_pipeline(ev, pool)
         return (lambda: op(t)), [t], op
     op = _pooled(ev, pool)
     return (lambda: op(t)), [t], op
+
+
+def _make_pipeline(ev, pool):
+    """Transforms(step, ...) where a step may itself be a pipeline description."""
+    from swcgeom.transforms import Transforms
+
+    return Transforms(*[_make_pipeline(e, pool) if e[0] == "Transforms" else _pooled(e, pool) for e in ev[1:]])
+
+
+def _flat_steps(ev):
+    out = []
+    for e in ev[1:]:
+        out += _flat_steps(e) if e[0] == "Transforms" else [e]
+    return out
 
 
 def _pooled(ev, pool):
@@ -442,11 +465,13 @@ def check_case(case, R):
         except BaseException as e:  # noqa: BLE001
             R.fail("not-repeatable", f"history={hist}: second application raised {type(e).__name__}: {e}", f"not-repeatable:{sig}", history=hist)
         if name == "Transforms":
-            a, b = _make_transform(ev[1]), _make_transform(ev[2])
+            steps = [_make_transform(e) for e in _flat_steps(ev)]
             try:
-                seq = b(a(t))
-                R.trans(2)
-                R.check(build.canon_tree(seq) == build.canon_tree(out), "composition", lambda: f"history={hist}: Transforms(a,b)(x) != b(a(x))",
+                seq = t
+                for st in steps:
+                    seq = st(seq)
+                R.trans(len(steps))
+                R.check(build.canon_tree(seq) == build.canon_tree(out), "composition", lambda: f"history={hist}: Transforms(a,b,...)(x) != ...b(a(x))",
                         "composition:Transforms", history=hist)
             except (kernel.CaseTimeout, KeyboardInterrupt):
                 raise
